@@ -17,8 +17,15 @@ func Run(c *vrun.Ctx) error {
 	// the two specifications are checked and replayed side by side (TLC with 3
 	// workers each in the quick tier, 6 for the large history run in thorough)
 	errs := make(chan error, 2)
-	go func() { errs <- runCases(c) }()
-	go func() { errs <- runHistories(c) }()
+	part := func(site string, fn func(*vrun.Ctx) error) {
+		var err error
+		if hp := guard(c, site, nil, func() { err = fn(c) }); hp != nil {
+			err = hp
+		}
+		errs <- err
+	}
+	go part("cases", runCases)
+	go part("histories", runHistories)
 	var first error
 	for i := 0; i < 2; i++ {
 		if err := <-errs; err != nil && first == nil {
